@@ -20,6 +20,11 @@ Clause labels -> sentence of the property:
   never_injected      "so a non-configurable parameter is never injected"
   method_only_via_class      "A method registered on a registered class is addressable
                       only through its class name"
+
+Deliberately not probed, because the statement can be read either way: the name `self` /
+`cls` of a constructor, positional-only parameters, references (`@method`) as opposed to
+bindings.  One edge shape is probed in two corner cases only (signature `cls_noinit`): a
+class without a constructor of its own, whose Python signature is `()`.
 """
 import functools
 import inspect
@@ -104,6 +109,10 @@ def _make(shape):
       def __init__(self, a, **kw):
         self.got = _rec(a=a, **kw)
     return C, ['a']
+  if shape == 'cls_noinit':   # edge: no constructor of its own, signature is ()
+    class C:
+      pass
+    return C, []
   raise AssertionError(shape)
 
 
@@ -193,7 +202,7 @@ def _received(call, scope, supply_a=True):
       out = call(0) if supply_a else call()
   except TypeError as e:
     return {'raised': str(e)[:80]}
-  return out if isinstance(out, dict) else out.got
+  return out if isinstance(out, dict) else getattr(out, 'got', {})
 
 
 def _fail(fails, clause, expected, observed, sig):
@@ -237,8 +246,8 @@ def _check_bind(case, fails):
             'path=str prebinding')
       return
   before = _snap()
-  tag = 'path=%s %s lists=%s' % (case['path'], 'cls' if inspect.isclass(target) else 'fn',
-                                 case['lists'][:5])
+  kind = case['shape'] if not explicit else 'cls' if inspect.isclass(target) else 'fn'
+  tag = 'path=%s %s lists=%s' % (case['path'], kind, case['lists'][:5])
   try:
     scope = _bind(path, sel, p, 'user.other.v')
     raised = None
@@ -266,11 +275,12 @@ def _check_bind(case, fails):
     _fail(fails, 'accepted_iff_configurable', 'raise for %s.%s' % (sel, p),
           'accepted', tag + ' param=%s' % (p if p in ('args', 'kw') else
                                            'listed' if _py_accepts(sig, p) else 'unknown'))
+    return   # what follows from the acceptance is not reported again
   if after != before:
     _fail(fails, 'rejection_leaves_config', _j(before),
           [_j(after), after[1] == before[1]], tag)
   if registered:
-    got = _received(call, scope)
+    got = _received(call, scope, supply_a=bool(explicit))
     if got.get(p) == V or 'raised' in got or (p == 'args' and V in got.get('args', ())):
       _fail(fails, 'never_injected', '%s not supplied' % p, got, tag)
 
@@ -353,6 +363,9 @@ def cases(tier, rng):
                          ('none', 'b'), ('deny_last', 'c')):
       yield _bind_case('fn_plain', 'configurable', lists, param, path, 'short')
       yield _bind_case('cls_init', 'external', lists, param, path, 'full')
+  # edge: a class without a constructor of its own accepts no parameter at all
+  for path in ('str', 'text'):
+    yield _bind_case('cls_noinit', 'external', 'none', 'zz', path, 'short')
   for reg in ('register', 'external'):
     for spell in ('bare', 'class', 'full', 'old', 'plain'):
       for path in MPATHS:
